@@ -49,6 +49,10 @@ Definition with_token (r : ring) (b : bool) := mkR (rhead r) (rtail r) (rslots r
 Definition with_claimed (r : ring) (x : Z) := mkR (rhead r) (rtail r) (rslots r) (rtoken r) (rthreads r) (x :: rclaimed r) (rdelivered r).
 Definition with_delivered (r : ring) (l : list Z) := mkR (rhead r) (rtail r) (rslots r) (rtoken r) (rthreads r) (rclaimed r) (rdelivered r ++ l).
 
+(* after slot i: the next slot, or the head store once all 16 were visited *)
+Definition next_slot (h i : Z) (acc : list Z) : pc :=
+  if rcap <=? i + 1 then D5 h acc else D4a h (i + 1) acc.
+
 (* one atomic step of thread tid; returns the new state and, when Add returns, its result:
    [] = no event, [-1] = Add returned nil, (-2 :: batch) = Add returned a batch *)
 Definition rstep (r : ring) (tid : Z) : ring * list Z :=
@@ -72,12 +76,10 @@ Definition rstep (r : ring) (tid : Z) : ring * list Z :=
       if rtail r - h <? rcap then (set_pc r tid D3r, []) else (set_pc r tid (D4a h 0 []), [])
   | D3r => (set_pc (with_token r true) tid Idle, [-1])
   | D4a h i acc =>
-      if rcap <=? i then (set_pc r tid (D5 h acc), [])
-      else
-        let v := slot_get r (h + i) in
-        if v =? 0 then (set_pc r tid (D4a h (i + 1) acc), [])
-        else (set_pc r tid (D4b h i v acc), [])
-  | D4b h i v acc => (set_pc (with_slot r (h + i) 0) tid (D4a h (i + 1) (acc ++ [v])), [])
+      let v := slot_get r (h + i) in
+      if v =? 0 then (set_pc r tid (next_slot h i acc), [])
+      else (set_pc r tid (D4b h i v acc), [])
+  | D4b h i v acc => (set_pc (with_slot r (h + i) 0) tid (next_slot h i (acc ++ [v])), [])
   | D5 h acc => (set_pc (with_delivered (with_head r (h + rcap)) acc) tid (Hold acc), -2 :: acc)
   | Hold _ => (r, [])
   | F1 => (set_pc (with_token r true) tid Idle, [])
